@@ -403,101 +403,115 @@ func q3(w *World, r *Report) {
 		}
 	}
 	r.Check(ok, "Q-3", "RigoApp.Query:height-0-is-last", "height 0 is replaced by the last committed height", "height 0 is not mapped to the last committed block height", fnSite(w, fn))
-	// the (modified) request is what the controllers receive
-	for _, c := range CallsIn(fn) {
-		if callName(c.Common()) == "Query" {
-			_, args := callRecvArgs(c.Common())
-			r.Check(len(args) == 1 && w.Canon(args[0]) == "p0", "Q-3", "RigoApp.Query:passes-request:"+w.Canon(c.Common().Args[0]), "controller receives the request with the resolved height", "controller is queried with something other than the request", site(w, c))
-		}
-	}
 	// dispatch agreement
 	pathsOf := func(f *ssa.Function, reqCanon string) map[string]bool {
 		out := map[string]bool{}
-		for _, b := range f.Blocks {
-			for _, in := range b.Instrs {
-				bo, ok := in.(*ssa.BinOp)
-				if !ok || bo.Op != token.EQL {
-					continue
+		seen := map[*ssa.Function]bool{}
+		var scan func(g *ssa.Function, d int)
+		scan = func(g *ssa.Function, d int) {
+			if g == nil || g.Blocks == nil || seen[g] || d > 2 {
+				return
+			}
+			seen[g] = true
+			for _, b := range g.Blocks {
+				for _, in := range b.Instrs {
+					if c, isCall := in.(*ssa.Call); isCall && d < 2 {
+						if cal := c.Common().StaticCallee(); cal != nil && w.InModule(cal) && w.FuncPkgPath(cal) == w.FuncPkgPath(f) {
+							scan(cal, d+1)
+						}
+					}
+					bo, ok := in.(*ssa.BinOp)
+					if !ok || bo.Op != token.EQL {
+						continue
+					}
+					var cst *ssa.Const
+					var other ssa.Value
+					if c, ok := bo.Y.(*ssa.Const); ok {
+						cst, other = c, bo.X
+					} else if c, ok := bo.X.(*ssa.Const); ok {
+						cst, other = c, bo.Y
+					}
+					if cst == nil || cst.Value == nil || cst.Value.Kind() != constant.String {
+						continue
+					}
+					if oc := w.Canon(other); oc == reqCanon+".Path" || (d > 0 && strings.HasSuffix(oc, ".Path")) {
+						out[constant.StringVal(cst.Value)] = true
+					}
+				}
+			}
+		}
+		scan(f, 0)
+		return out
+	}
+	// app: which paths go to which controller — RigoApp.Query is evaluated once per
+	// path string (helpers expanded), recording which controller's Query is called
+	appRoutes := map[string]map[string]bool{}
+	passOK := map[string]bool{}
+	{
+		all := pathsOf(fn, "p0")
+		all["<other>"] = true
+		ev := func(in ssa.Instruction) string {
+			c, ok := in.(ssa.CallInstruction)
+			if !ok || callName(c.Common()) != "Query" {
+				return ""
+			}
+			rcv, args := callRecvArgs(c.Common())
+			if c.Common().IsInvoke() {
+				rcv = c.Common().Value
+			}
+			if rcv == nil || !strings.HasPrefix(w.Canon(rcv), "recv.") {
+				return ""
+			}
+			tgt := w.Canon(rcv)
+			if len(args) == 1 && w.Canon(args[0]) == "p0" {
+				if _, seen := passOK[tgt]; !seen {
+					passOK[tgt] = true
+				}
+			} else {
+				passOK[tgt] = false
+			}
+			return "Q:" + tgt
+		}
+		for ps := range all {
+			ps := ps
+			eval := func(c ssa.Value) (bool, bool) {
+				bo, ok := c.(*ssa.BinOp)
+				if !ok || (bo.Op != token.EQL && bo.Op != token.NEQ) {
+					return false, false
 				}
 				var cst *ssa.Const
 				var other ssa.Value
-				if c, ok := bo.Y.(*ssa.Const); ok {
-					cst, other = c, bo.X
-				} else if c, ok := bo.X.(*ssa.Const); ok {
-					cst, other = c, bo.Y
+				if k, ok := bo.Y.(*ssa.Const); ok {
+					cst, other = k, bo.X
+				} else if k, ok := bo.X.(*ssa.Const); ok {
+					cst, other = k, bo.Y
 				}
-				if cst == nil || cst.Value == nil || cst.Value.Kind() != constant.String {
-					continue
+				if cst == nil || cst.Value == nil || cst.Value.Kind() != constant.String || w.Canon(other) != "p0.Path" {
+					return false, false
 				}
-				if w.Canon(other) == reqCanon+".Path" {
-					out[constant.StringVal(cst.Value)] = true
-				}
+				return (constant.StringVal(cst.Value) == ps) == (bo.Op == token.EQL), true
 			}
-		}
-		return out
-	}
-	// app: which paths go to which controller
-	appRoutes := map[string]map[string]bool{}
-	cf := map[*ssa.BasicBlock]map[string]bool{}
-	{
-		// forward flow of "possible path strings" through the == chain
-		all := pathsOf(fn, "p0")
-		all["<other>"] = true
-		cf[fn.Blocks[0]] = all
-		work := []*ssa.BasicBlock{fn.Blocks[0]}
-		for len(work) > 0 {
-			b := work[0]
-			work = work[1:]
-			cur := cf[b]
-			outs := []map[string]bool{cur, cur}
-			if ifi, ok := lastInstr(b).(*ssa.If); ok {
-				if bo, ok := ifi.Cond.(*ssa.BinOp); ok && bo.Op == token.EQL {
-					if c, ok := bo.Y.(*ssa.Const); ok && c.Value != nil && c.Value.Kind() == constant.String && w.Canon(bo.X) == "p0.Path" {
-						s := constant.StringVal(c.Value)
-						eq := map[string]bool{}
-						if cur[s] {
-							eq[s] = true
+			paths, _ := w.enumPaths(fn, eval, ev, 2000)
+			for _, p := range paths {
+				for _, e := range p.Events {
+					if strings.HasPrefix(e, "Q:") {
+						t := strings.TrimPrefix(e, "Q:")
+						if appRoutes[t] == nil {
+							appRoutes[t] = map[string]bool{}
 						}
-						ne := map[string]bool{}
-						for k := range cur {
-							if k != s {
-								ne[k] = true
-							}
-						}
-						outs = []map[string]bool{eq, ne}
+						appRoutes[t][ps] = true
 					}
-				}
-			}
-			for i, s := range b.Succs {
-				o := cur
-				if i < len(outs) {
-					o = outs[i]
-				}
-				if cf[s] == nil {
-					cf[s] = map[string]bool{}
-				}
-				ch := false
-				for k := range o {
-					if !cf[s][k] {
-						cf[s][k] = true
-						ch = true
-					}
-				}
-				if ch {
-					work = append(work, s)
 				}
 			}
 		}
 	}
-	for _, c := range CallsIn(fn) {
-		if callName(c.Common()) != "Query" {
-			continue
-		}
-		tgt := w.Canon(c.Common().Args[0])
-		if c.Common().IsInvoke() {
-			tgt = w.Canon(c.Common().Value)
-		}
-		appRoutes[tgt] = cf[c.Block()]
+	var tgts []string
+	for t := range passOK {
+		tgts = append(tgts, t)
+	}
+	sort.Strings(tgts)
+	for _, t := range tgts {
+		r.Check(passOK[t], "Q-3", "RigoApp.Query:passes-request:"+t, "controller receives the request with the resolved height", "controller is queried with something other than the request whose height was resolved", fnSite(w, fn))
 	}
 	ctrls := []struct{ field, pkg, typ string }{{"recv.acctCtrler", "ctrlers/account", "AcctCtrler"}, {"recv.stakeCtrler", "ctrlers/stake", "StakeCtrler"}, {"recv.govCtrler", "ctrlers/gov", "GovCtrler"}, {"recv.vmCtrler", "ctrlers/vm/evm", "EVMCtrler"}}
 	for _, ct := range ctrls {
